@@ -4,3 +4,4 @@ import CliUtils.Props.C15
 import CliUtils.Props.C06
 import CliUtils.Props.C20
 import CliUtils.Props.C17
+import CliUtils.Props.C14
